@@ -115,9 +115,21 @@ def pred_key(op):
     return None
 
 
+def model_key(op):
+    if op == "fromast":
+        return "mfromast"
+    if op.startswith("pass:"):
+        return "m:" + op[5:]
+    if op.startswith("chain:"):
+        return "mchain:" + op[6:]
+    return None
+
+
 def main():
     c = Check("C04")
     os.makedirs(C04_WORK, exist_ok=True)
+    if os.environ.get("C04_KNOWN_FILE"):  # test hook: try a candidate known_findings.json before it is merged
+        c.known = [f for f in json.load(open(os.environ["C04_KNOWN_FILE"])).get("findings", []) if f.get("property") == "C04"]
     c.trusted = [
         "Lean 4.33 kernel; axioms per theorem in obligation_list (subset of propext, Classical.choice, Quot.sound)",
         "the Lean models of the passes (C06), transformations (C15), FromAST/veneers (C16/C17) — tied to the code by those properties' correspondence streams; here additionally by the prediction check (hypotheses hold => the real code must not panic)",
@@ -184,7 +196,7 @@ def main():
     by_stream = collections.Counter()
     outcomes = collections.Counter()
     classes = {}  # (route-kind, outcome, frame, msg) -> [first case rows]
-    contradicted, outside, inscope_ok = [], 0, 0
+    contradicted, model_contradicted, outside, inscope_ok = [], [], 0, 0
     corpus_results = {}
     for res, verdict, case in rows:
         rid = res["id"]
@@ -211,6 +223,13 @@ def main():
                 if key and pred.get(key) == "true":
                     contradicted.append((res, case, op, frame, msg))
                     continue
+                # the MODEL itself does not panic on this IR (it returns ok / an error) but the real code does:
+                # the model no longer describes the code, whatever the recorded findings say
+                mk = model_key(op)
+                mv = pred.get(mk) if mk else None
+                if mv in ("ok", "err") and not (mk == "mfromast" and mv == "err"):
+                    model_contradicted.append((res, case, op, frame, msg, mv))
+                    continue
             route = route_of(rid, note)
             text = "route=%s outcome=%s frame=%s msg=%s op=%s id=%s note=%s" % (route, outcome, frame, msg, op, rid, note)
             classes.setdefault((route.split(":")[0], outcome, frame, msg), []).append((text, res, case))
@@ -232,6 +251,19 @@ def main():
                      "op": op, "frame": frame, "msg": msg, "case": small or case, "vir": res.get("extra", "")[:20000], "stack": res.get("stack", "")[:3000]})
     c.oblige("no panic of the real code where a C04 theorem's hypotheses hold (%d predictions checked)" % c.cov["disagreements_checked"], not contradicted,
              [(x[2], x[3], x[4]) for x in contradicted[:5]])
+
+    seen_ops = set()
+    for res, case, op, frame, msg, mv in model_contradicted:
+        if (op, frame, msg) in seen_ops or len(seen_ops) >= 5:
+            continue
+        seen_ops.add((op, frame, msg))
+        if case and case.get("kind") == "ir":
+            case = dict(case, op=op)
+        small = shrink(hb, case)[0] if case else None
+        c.violation({"kind": "model-contradicted", "what": "the Lean model of `%s` returns `%s` on this well-formed IR (driver: c04pred) but the real code panics: the code has a panic the model does not have" % (op, mv),
+                     "op": op, "frame": frame, "msg": msg, "case": small or case, "vir": res.get("extra", "")[:20000], "stack": res.get("stack", "")[:3000]})
+    c.oblige("no panic of the real code on a well-formed IR where the Lean model of the same pass / chain / FromAST does not panic", not model_contradicted,
+             [(x[2], x[3], x[4]) for x in model_contradicted[:5]])
 
     # (b) every other failure is a recorded finding, or a violation
     unknown = []
